@@ -235,7 +235,8 @@ theorem modelSteps_cons (h : Header) (op : Op) (ops : List Op) :
 /-- the model's history satisfies the fold of the predicate, and ends in the map the final
     header shows -/
 theorem foldOk_model (ops : List Op) : ∀ (h : Header), noGhost h = true →
-    foldOk (view h) ops (modelSteps h ops).1 = some (view (modelSteps h ops).2) ∧
+    foldOk (view h) (h.extension, (Pred.C01.canonH h).extProfile) ops (modelSteps h ops).1 =
+      some (view (modelSteps h ops).2) ∧
     noGhost (modelSteps h ops).2 = true := by
   induction ops with
   | nil => intro h hg; exact ⟨rfl, hg⟩
@@ -250,14 +251,14 @@ theorem foldOk_model (ops : List Op) : ∀ (h : Header), noGhost h = true →
     | none =>
       simp only [resOfErr]
       rw [← step_view h op hg he, readsOk_model]
-      simpa using ih1
+      simpa [modelReads] using ih1
     | some e =>
       have hu : (modelStep h op).2 = h :=
         step_err_unchanged h op e _ (by rw [← he])
       simp only [resOfErr]
       rw [hu] at ih1 ⊢
       rw [readsOk_model]
-      simpa using ih1
+      simpa [modelReads] using ih1
 
 /-- the trace the model produces: per operation accepted?, ids, reads -/
 def modelTrace (h : Header) (ops : List Op) : List (Bool × List UInt8 × List (UInt8 × Option Bytes)) :=
